@@ -4,8 +4,9 @@ INVARIANT Inv
 CHECK_DEADLOCK FALSE
 CONSTANTS
   Fam = "bs"
-  MaxTab = 6
+  MaxTab = 5
   FullTab = 3
-  AgreeTab = 4
+  AgreeTab = 3
   MaxLen = 3
   Dups = FALSE
+  Slim = TRUE
